@@ -11,6 +11,7 @@ import io
 import contextlib
 from collections import defaultdict
 from vlib.common import Acc, rng, Scratch
+from vlib import tagger as T
 from vlib.sim import frags as F
 from vlib.sim.bam import write_bam
 
@@ -24,7 +25,7 @@ RULE = ('simulated libraries with known truth: 1-8 cells, 1-40 sites on both str
 ASSUMPTIONS = ['the simulator is the truth (cell, site, strand, UMI by construction)',
                'for hamming>0 / radius>0 only soundness is demanded (chain linkage), for hamming 0 and radius 0 exact equality of the partition']
 MIN_NONTRIVIAL = {'quick': 60, 'thorough': 2000}
-REQUIRED_MONITORS = ['history:peek_then_full_pass', 'class:plain_fragment', 'hook:Molecule.write_tags', 'partition:exact_compared', 'partition:soundness_checked', 'tags:molecules_checked',
+REQUIRED_MONITORS = ['history:peek_then_full_pass', 'eject:interval_shrunk', 'partition:no_split_checked', 'class:plain_fragment', 'hook:Molecule.write_tags', 'partition:exact_compared', 'partition:soundness_checked', 'tags:molecules_checked',
                      'history:input_with_duplicate_bits', 'history:retagged', 'cli:records_checked', 'cap:overflow_molecules']
 SHARD_TIMEOUT = {'quick': 900, 'thorough': 5400}
 
@@ -132,7 +133,9 @@ def run_case(case):
     history = r.choice(['clean', 'clean', 'dupbits', 'stale'])
     cap = r.choice([None, None, None, 2, 3])
     ncontig = r.randint(1, 3)
-    contigs = [(f'chr{j + 1}', r.choice([3000, 8000, 20000])) for j in range(ncontig)]
+    contigs = [(f'chr{j + 1}', r.choice([3000, 8000, 20000, 60000])) for j in range(ncontig)]
+    # how often the molecule buffer is checked for molecules that are out of reach (default: every 10,000 fragments, never with these sizes)
+    eject_every = r.choice([None, None, 0, 1, 5, 25])
     n_sites = r.choice([1, 3, 8, 20, 40])
     gen, recs, truths = F.simulate_library(
         r, method='nla' if method == 'plain' else method, contigs=contigs, n_cells=r.randint(1, 8), n_sites=n_sites, umi_len=r.choice([3, 3, 6]),
@@ -143,7 +146,8 @@ def run_case(case):
     if not truths:
         return acc
     cfg = {'method': method, 'hamming': d, 'radius': radius, 'pooling': pooling, 'trimmed': trimmed, 'history': history, 'cap': cap,
-           'fragments': len(truths), 'sites': n_sites}
+           'fragments': len(truths), 'sites': n_sites, 'check_eject_every': eject_every if eject_every is not None else 'default'}
+    acc.count('eject:interval_shrunk', 0 if eject_every is None else 1)
     if history != 'clean':
         acc.count('history:input_with_duplicate_bits')
     tp = truth_partition(truths)
@@ -183,6 +187,20 @@ def run_case(case):
                 acc.violate('partition-merges-distinct-molecules' if merged else 'partition-splits-a-molecule',
                             f'{label}: partition differs from truth; only in output {only_got}; only in truth {only_exp} ({cfg})',
                             dict(wit, got=only_got, expected=only_exp, keys={i: truths[i]['key'] for g in only_got + only_exp for i in g}))
+        # completeness: with exact UMI matching the copies of one true molecule (identical cell, site, strand, UMI) are never spread over two
+        # molecules, whatever the assignment radius (a radius can only merge more)
+        if d == 0 and not cap and method != 'plain':
+            acc.count('partition:no_split_checked')
+            where = {}
+            for gi, g in enumerate(groups):
+                for i in g:
+                    where[i] = gi
+            for cls in tp:
+                gis = set(where[i] for i in cls if i in where)
+                if len(gis) > 1:
+                    acc.violate('partition-splits-a-molecule', f'{label}: the copies {sorted(cls)} of one true molecule {truths[next(iter(cls))]["key"]} are spread over '
+                                                                f'{len(gis)} molecules ({cfg})', dict(wit, true_molecule=sorted(cls)))
+                    break
         # soundness for every configuration
         acc.count('partition:soundness_checked')
         for g in groups:
@@ -208,6 +226,8 @@ def run_case(case):
                 peek = len(gen.refs) == 1 and r.random() < 0.5
                 if peek:
                     it_kwargs['contig'] = gen.refs[0][0]   # a region fetch restarts from the beginning on every iteration
+                if eject_every is not None:
+                    it_kwargs['check_eject_every'] = eject_every
                 mol_iter = MoleculeIterator(f, molecule_class=mclass, fragment_class=fclass, fragment_class_args=dict(fargs),
                                             molecule_class_args=dict(margs), yield_invalid=True, pooling_method=pooling, **it_kwargs)
                 if peek:
@@ -250,7 +270,7 @@ def run_case(case):
                 cmd += ['-max_associated_fragments', str(cap)]
             obs.install()
             try:
-                with contextlib.redirect_stdout(io.StringIO()), contextlib.redirect_stderr(io.StringIO()):
+                with contextlib.redirect_stdout(io.StringIO()), contextlib.redirect_stderr(io.StringIO()), T.instrumented(eject_every=eject_every):
                     run_multiome_tagging_cmd(cmd)
             finally:
                 obs.remove()
@@ -264,7 +284,7 @@ def run_case(case):
                 cmd2 += ['-assignment_radius', str(radius)]
             if cap:
                 cmd2 += ['-max_associated_fragments', str(cap)]
-            with contextlib.redirect_stdout(io.StringIO()), contextlib.redirect_stderr(io.StringIO()):
+            with contextlib.redirect_stdout(io.StringIO()), contextlib.redirect_stderr(io.StringIO()), T.instrumented(eject_every=eject_every):
                 run_multiome_tagging_cmd(cmd2)
             acc.count('history:retagged')
             g2 = check_tagged_bam(acc, out2, truths, cfg, wit, 'retag', check_partition, cap)
